@@ -665,6 +665,39 @@ def derived_index_scenario(ctx):
     run.verify_all('subsample', sig, hist, touched=(1, 2, 3, 4))
 
 
+def repeated_selection_scenario(ctx):
+    """the same selection asked for twice on one object, with an in-place reorder / sort in between: the second answer is
+    that of the object as it is now"""
+    rng = ctx.rng
+    w = World(rng)
+    run = Run(ctx, w)
+    obj, sh = w.new_source(int(rng.integers(1, 4)))
+    run.add(obj, sh)
+    vals = [int(c) for c in rng.choice(sh.conds, size=max(2, len(sh.conds) // 2), replace=False)]
+    sig = dict(op='subset_pattern', arg='puid/repeated')
+    hist = lambda **k: dict(op='repeated_selection', conds=list(sh.conds), values=vals, **k)  # noqa: E731
+    try:
+        first = obj.subset_pattern('puid', vals)
+        run.add(first, Shadow([(r, a) for r, a in sh.rows], [c for c in sh.conds if c in vals]))
+        if rng.integers(2):
+            perm = [int(i) for i in rng.permutation(len(sh.conds))]
+            obj.reorder(np.array(perm))
+            sh.conds = [sh.conds[i] for i in perm]
+        else:
+            obj.sort_by(puid=[int(v) for v in sorted(sh.conds, reverse=True)])
+            sh.conds = sorted(sh.conds, reverse=True)
+        second = obj.subset_pattern('puid', vals)
+        run.add(second, Shadow([(r, a) for r, a in sh.rows], [c for c in sh.conds if c in vals]))
+        third = obj.subsample_pattern('puid', vals)
+        run.add(third, Shadow([(r, a) for r, a in sh.rows], [c for c in sh.conds if c in vals]))   # (object order)
+    except Exception as exc:
+        ctx.fail('subset_pattern', dict(sig, what='raised', exception=type(exc).__name__), f'repeated selection raised '
+                 f'{exc!r}', hist())
+        return
+    ctx.case('subset_pattern', sig)
+    run.verify_all('subset_pattern', sig, hist, touched=(0, 1, 2, 3))
+
+
 def exhaustive_short(ctx):
     """all sequences of length <= 3 of the core operations over a 3-condition, 2-RDM object (fixed arguments
     chosen by a per-sequence generator seeded from the sequence itself)"""
@@ -725,6 +758,8 @@ def run(ctx):
         random_sequence(ctx, length)
         if it % 15 == 0:
             derived_index_scenario(ctx)
+        if it % 15 == 7:
+            repeated_selection_scenario(ctx)
     if ctx.thorough:
         exhaustive_short(ctx)
     ctx.count('invariant_evaluations', _inv['n'])
